@@ -164,7 +164,7 @@ and then to exactly (host without brackets, explicit-or-default port), as a
 tunnel iff the method is CONNECT — with and without `--enable-conn-pool` (`pool`;
 then the address is the key handed to a fresh `UpstreamConnectionPool.acquire`,
 which opens the new connection to that key).  It never drops the request
-silently, never raises, never connects anywhere else. -/
+silently, never answers 502 before connecting, never connects anywhere else. -/
 theorem C14_end_to_end (cfg : Cfg) (m v rest : Bytes) (t : Target)
     (h : t.WF cfg.allowedSchemes) (hf : t.form ≠ .origin) (hd : cfg.defaultHttpPort ≠ 0) (hg : t.port ≠ some 0)
     (hm : SP ∉ m) (hu : SP ∉ renderT t) (hlf : ∀ c ∈ m ++ SP :: (renderT t ++ SP :: v), c ≠ LF) (pool : Bool) :
@@ -172,7 +172,7 @@ theorem C14_end_to_end (cfg : Cfg) (m v rest : Bytes) (t : Target)
     | .connected a tn _ =>
       a = ⟨t.host.bare, derivedPort cfg (m == cfg.connectMethod) t.port⟩ ∧ tn = (m == cfg.connectMethod)
     | .closeSilent => False
-    | .raisedUnicode => False
+    | .reject502 => False
     | .incomplete => True
     | .reject400 => True := by
   have hrt := C14_roundtrip _ t h
